@@ -153,6 +153,7 @@ let monitor ic oc =
   let reach = ref true in
   let inv = ref true in
   let nopanic = ref true in
+  let inv_pending = ref false in
   let ghost : M.ghost option ref = ref None in
   let last_blk : (M.n * M.n list) list option ref = ref None in
   let pending : ((M.n * M.n list) list * M.n) option ref = ref None in
@@ -171,13 +172,13 @@ let monitor ic oc =
       match l.[0] with
       | 'M' -> (match nums_of_line l with [d] -> dbg := not (is_zero d) | _ -> ())
       | 'C' ->
-        case_line := ln; reach := true; inv := true; nopanic := true; ghost := None; last_blk := None; pending := None
+        case_line := ln; reach := true; inv := true; nopanic := true; inv_pending := false; ghost := None; last_blk := None; pending := None
       | 'I' ->
         (match nums_of_line l with
          | M.N0 :: _ -> ()
          | M.Npos M.XH :: _ -> ()
          | M.Npos (M.XI M.XH) :: _ -> reach := false; inv := false
-         | nums -> reach := false; nopanic := false; inv := List.length nums >= 17);
+         | nums -> reach := false; nopanic := false; inv := List.length nums >= 17; inv_pending := !inv);
         last_blk := None; pending := None
       | 'A' ->
         (match !last_blk, nums_of_line l with
@@ -203,6 +204,8 @@ let monitor ic oc =
         done;
         let blk = List.rev !blk in
         incr blocks;
+        (* an assembled root state gets the invariant-level clauses only if it passes the executable invariant *)
+        if !inv_pending then begin inv_pending := false; inv := M.inv_exec_blk blk end;
         if is_zero k || k = M.Npos M.XH then report ln (M.mon_block !dbg !reach !inv !nopanic blk)
         else if !nopanic then begin
           (* S-only block: a missing S line is a panic while reading the state *)
